@@ -129,6 +129,23 @@ theorem bearer_exact (t : Bytes) : serverBearer (bearer t) = some t := by
 example : serverBearer (bearer [116, 111, 107, 58, 32, 195, 169]) = some [116, 111, 107, 58, 32, 195, 169] := by
   decide
 
+/-- **bearer_scheme_like_token** (round 7): a token that itself begins with the scheme - a stored
+    complete header value `Bearer xxx` - is a token like any other: the origin recovers all of it,
+    the seven bytes included. -/
+theorem bearer_scheme_like_token (t : Bytes) :
+    serverBearer (bearer (bearerPrefix ++ t)) = some (bearerPrefix ++ t) := bearer_exact _
+
+/-- **bearer_never_verbatim**: the header value is never the token itself, whatever the token
+    looks like: the scheme is always written (seven bytes longer). -/
+theorem bearer_never_verbatim (t : Bytes) : bearer t ≠ t := by
+  intro h
+  have := congrArg List.length h
+  simp [bearer, bearerPrefix] at this
+  omega
+
+/-- non-vacuity: the token `Bearer abc` goes out as `Bearer Bearer abc`. -/
+example : bearer (bearerPrefix ++ [97, 98, 99]) = bearerPrefix ++ bearerPrefix ++ [97, 98, 99] := by decide
+
 end basic
 
 end Req.Props.C20
